@@ -134,7 +134,21 @@ func runBatch(inputs [][]byte, goroutines int) error {
 	for i := 0; i < 3; i++ {
 		inputs = append(inputs[:len(inputs):len(inputs)], []byte(rarePaths(i+1)))
 	}
-	// (a) distinct inputs parsed concurrently
+	// documents with NULs (Parse must replace them without touching the caller's bytes)
+	inputs = append(inputs[:len(inputs):len(inputs)], []byte("a\x00b\n\n[x\x00]: /u\n\n[x\x00] \x00\x00\n"), []byte("\x00\n> \x00 *a\x00*\n"))
+	// (a) distinct inputs parsed concurrently. The inputs of the in-memory
+	// parses are adjacent sub-slices of one buffer (each slice's capacity runs
+	// on over its neighbours), as when a caller cuts documents out of one
+	// file: a parse that writes to its input, or beyond its length, races
+	// with its neighbours' parses
+	var arena []byte
+	offs := make([]int, len(inputs)+1)
+	for i, in := range inputs {
+		offs[i] = len(arena)
+		arena = append(arena, in...)
+	}
+	offs[len(inputs)] = len(arena)
+	arenaCopy := append([]byte(nil), arena...)
 	wantParse := make([]string, len(inputs))
 	for i, in := range inputs {
 		b, r := cm.Parse(append([]byte(nil), in...))
@@ -148,7 +162,7 @@ func runBatch(inputs [][]byte, goroutines int) error {
 		go func(i int) {
 			defer wg.Done()
 			<-start
-			b, r := cm.Parse(append([]byte(nil), inputs[i]...))
+			b, r := cm.Parse(arena[offs[i]:offs[i+1]])
 			if got := dumpAll(b, r); got != wantParse[i] {
 				errs <- fmt.Errorf("concurrent Parse of input %d differs from the sequential result", i)
 			}
@@ -168,6 +182,9 @@ func runBatch(inputs [][]byte, goroutines int) error {
 	}
 	close(start)
 	wg.Wait()
+	if !bytes.Equal(arena, arenaCopy) {
+		return fmt.Errorf("the buffer holding the inputs was modified by the concurrent parses")
+	}
 
 	// (b) one shared tree rendered, formatted and walked concurrently
 	var doc []byte
@@ -292,7 +309,7 @@ func genBatch(t *rapid.T) harness.Case {
 	return c
 }
 
-const rule = "batch of 4-16 G1/G2/G3 inputs x 8-64 goroutines behind a start barrier: (a) each input parsed (in-memory and streaming) concurrently, (b) the concatenation (plus raw HTML with upper-case tag names) parsed once and rendered by shared HTMLRenderer values under all 24 configurations, formatted and walked concurrently; oracle = race detector log stays empty and every result equals the sequential one; non-trivial = batch has >= 4 inputs including reference syntax and raw HTML"
+const rule = "batch of 4-16 G1/G2/G3 inputs x 8-64 goroutines behind a start barrier: (a) each input parsed (in-memory, as adjacent sub-slices of one shared buffer, and streaming) concurrently, (b) the concatenation (plus raw HTML with upper-case tag names) parsed once and rendered by shared HTMLRenderer values under all 24 configurations, formatted and walked concurrently; oracle = race detector log stays empty and every result equals the sequential one; non-trivial = batch has >= 4 inputs including reference syntax and raw HTML"
 
 func TestProperty(t *testing.T) {
 	harness.Run(t, harness.Plan{Prop: "C19", Checks: []harness.Check{
